@@ -1,23 +1,36 @@
 import IoraModel.Lemmas.TpAfter
 import IoraModel.Lemmas.TpRefuse
 import IoraModel.Lemmas.TpSize
+import IoraModel.Lemmas.TpIds
+import IoraModel.Lemmas.TpLive
 /-!
 # C09 — Every accepted task runs exactly once before pool shutdown completes
 
 Property theorems only (helper lemmas live in `Lemmas/Tp*.lean`).  The model is `Model/ThreadPool.lean`: the monitor
 model of `iora::core::ThreadPool` at DetSched granularity, with the spawn protocol as repaired by
-fixes/F24-threadpool-atomic-spawn.patch.  "For every schedule" = `∀ sched : List Choice` (thread choice, which sleeper a
+fixes/F24-threadpool-atomic-spawn.patch, the wait of a concurrent `shutdown()` caller as repaired by
+fixes/FC09a-threadpool-concurrent-shutdown-waits.patch and the clamp of `_maxSize` of
+fixes/FC09b-threadpool-maxsize-clamp.patch (the restart path also has fixes/FC09c-threadpool-start-respects-bound.patch).
+"For every schedule" = `∀ sched : List Choice` (thread choice, which sleeper a
 `notify_one` wakes, time-outs, spurious wake-ups, late clocks, hash order of the join loop); the scripts of the
-controller, of the submitters and of the task bodies (`Cfg`) are arbitrary too.
+controller thread, of ANY NUMBER of additional controller threads (`Cfg.ctls`: each may call drain / stop / shutdown and
+submit, concurrently with each other), of the submitters and of the task bodies (`Cfg`) are arbitrary too.
+
+Declared assumptions (see `CfgOk` and the level note): the shutdown mode is IMMEDIATE or GRACEFUL; the pool is not
+restarted (`reset()` + `start()` after `stop()`): the restart path is part of the model, of the source conformance
+theorems and of the run-time check, but the theorems below are proved for `allowRestart = false`; only thread 0 destroys
+the pool (the additional controllers never run the destructor — the model ignores a `destroy` in their scripts).
 -/
 namespace Iora.C09
 open Iora.ThreadPool
 
-/-- hypotheses on the configuration: `maxSize ≥ 1`; the shutdown mode is IMMEDIATE or GRACEFUL (DETACHED does not wait
-for the workers — excluded, as stated in DESIGN §7 C09) -/
+/-- hypotheses on the configuration: the shutdown mode is IMMEDIATE or GRACEFUL (DETACHED does not wait for the workers —
+excluded, as stated in DESIGN §7 C09); no restart after `stop()`.  Nothing is assumed about `initialSize`, `maxSize`
+(0 and values below `initialSize` included: the constructor clamps, `Cfg.effMax`), the queue bound, the scripts, or the
+number of controller threads. -/
 structure CfgOk (cfg : Cfg) : Prop where
-  max : 1 ≤ cfg.maxSize
   joined : cfg.detached = false
+  norestart : cfg.allowRestart = false
 
 /-- `stop()` returned ok (4), `shutdown()` returned (7) or the destructor returned (8, 9) at some point of the run -/
 def Returned (s : St) : Prop := ∃ c, c ∈ s.sh.mlog ∧ isReturnCode c
@@ -31,30 +44,56 @@ def exCfg : Cfg :=
 /-- the schedule of a real DetSched run of this scenario (harness/c09_tp.cpp, seed 5), as accepted by the driver -/
 def exSched : List Choice :=
   [.run 0 0, .run 0 0, .run 0 0, .run 1 0, .run 0 0, .run 1 0, .run 0 0, .run 1 0, .run 0 0, .run 0 0, .run 0 0, .run 0 1, .run 1 1,
-   .run 1 0, .run 1 0, .run 0 0, .run 1 0, .run 1 0, .run 0 0, .run 0 0, .run 0 0, .run 0 0, .run 0 0, .run 0 0, .run 0 0, .run 1 1,
-   .run 1 0, .run 0 0, .run 0 0, .run 0 0, .run 0 0, .run 0 0, .run 0 1, .run 0 0, .run 0 0, .run 0 0, .run 0 0, .run 0 0, .run 0 0,
-   .run 0 0, .run 0 0]
+   .run 1 0, .run 1 0, .run 0 0, .run 1 0, .run 1 0, .timeout 1, .run 1 1, .run 1 0, .run 0 0, .run 0 0, .run 1 0, .run 1 0, .run 0 0,
+   .run 0 0, .run 0 0, .run 0 0, .run 0 0, .run 0 0, .run 0 0, .run 1 1, .run 1 0, .run 0 0, .run 0 0, .run 0 0, .run 0 1, .run 0 0,
+   .run 0 0, .run 0 0, .run 0 0, .run 0 0, .run 0 0, .run 0 0, .run 0 0]
 
-/-- `CfgOk` is satisfiable, and in this run `stop()` returns ok (4), `shutdown()` (7) and the destructor (8) return, one task is
-accepted, started once and finished once, and the queue had been non-empty on the way (prefix of 11 steps): the hypotheses of
-P2, P3, P5b and P6 are met by non-trivial states -/
-example : CfgOk exCfg := ⟨by decide, rfl⟩
-example : exCfg.initialSize ≤ exCfg.maxSize := by decide
-example : (run exCfg exSched).sh.mlog = [8, 4, 7, 1] := by decide
+/-- two controller threads: thread 0 submits a task, starts a second controller whose script is `shutdown()`, and calls
+`shutdown()` itself; then joins the second controller and destroys the pool -/
+def exCfg2 : Cfg :=
+  { initialSize := 1, maxSize := 1, maxQueue := 2, detached := false, hook := false,
+    bodies := [{ acts := [], throws := false }], ctls := [[.shutdown]],
+    main := [.act ⟨.enq, 0⟩, .spawnCtl 0, .shutdown, .joinSubs, .destroy] }
+
+/-- a real DetSched run of it (seed 7): thread 0 owns the shutdown; thread 2 finds `_shutdown` set and polls
+`_shutdownComplete` (7 steps at `sDoneZ`) until thread 0 has joined the worker -/
+def exSched2 : List Choice :=
+  [.run 0 0, .run 0 0, .run 0 0, .run 0 0, .run 1 0, .run 0 0, .run 1 0, .run 0 0, .run 1 0, .run 0 0, .run 0 0, .run 0 1, .run 0 0,
+   .run 1 1, .run 1 0, .run 1 0, .run 0 0, .run 1 0, .run 2 0, .run 2 0, .run 1 0, .timeout 1, .run 0 0, .run 0 0, .run 0 0, .run 2 0,
+   .run 0 0, .run 2 0, .run 0 0, .run 0 0, .run 0 0, .run 0 0, .run 0 0, .run 0 1, .run 2 0, .run 2 0, .run 2 0, .run 2 0, .run 0 0,
+   .run 1 1, .run 1 0, .run 0 0, .run 2 0, .run 0 0, .run 0 0, .run 0 0, .run 2 0, .run 2 0, .run 0 0, .run 0 0, .run 0 0, .run 0 0,
+   .run 0 0]
+
+/-- `CfgOk` is satisfiable, and in the first run `stop()` returns ok (4), `shutdown()` (7) and the destructor (8) return, one
+task is accepted, started once and finished once, and the queue had been non-empty on the way (prefix of 12 steps): the
+hypotheses of P2, P3, P5b and P6 are met by non-trivial states.  In the second run both `shutdown()` calls return (7, 7),
+the second one after waiting, and the destructor returns (8). -/
+example : CfgOk exCfg := ⟨rfl, rfl⟩
+example : CfgOk exCfg2 := ⟨rfl, rfl⟩
+example : (run exCfg exSched).sh.mlog = [8, 4, 7] := by decide
+set_option maxRecDepth 8000 in
+example : (run exCfg2 exSched2).sh.mlog = [8, 7, 7] := by decide
+set_option maxRecDepth 8000 in
+example : (match (run exCfg2 (exSched2.take 36)).thr[2]? with | some (.main .sDoneZ _) => true | _ => false) = true ∧
+    (run exCfg2 (exSched2.take 36)).sh.complete = false := by decide
 example : Returned (run exCfg exSched) := ⟨8, by decide, Or.inr (Or.inr (Or.inl rfl))⟩
-example : (run exCfg exSched).sh.accCnt 0 = 1 ∧ (run exCfg exSched).sh.startCnt 0 = 1 ∧ (run exCfg exSched).sh.doneCnt 0 = 1 := by decide
-example : (run exCfg (exSched.take 11)).sh.tasks ≠ [] := by decide
-example : (run exCfg exSched).sh.threads.length = 0 ∧ (run exCfg (exSched.take 11)).sh.threads.length = 1 := by decide
+example : (run exCfg exSched).sh.result 0 = .accepted ∧ (run exCfg exSched).sh.accCnt 0 = 1 ∧
+    (run exCfg exSched).sh.startCnt 0 = 1 ∧ (run exCfg exSched).sh.doneCnt 0 = 1 := by decide
+example : (run exCfg (exSched.take 12)).sh.tasks ≠ [] := by decide
+example : (run exCfg exSched).sh.threads.length = 0 ∧ (run exCfg (exSched.take 12)).sh.threads.length = 1 := by decide
+example : (run exCfg (exSched.take 12)).sh.shutdown = false ∧ (run exCfg (exSched.take 12)).thr.countP liveWorker = 1 := by decide
+/-- `maxSize = 0` (also the default when `hardware_concurrency()` is 0) is clamped: -/
+example : ({ exCfg with initialSize := 0, maxSize := 0 } : Cfg).effMax = 1 ∧ ({ exCfg with initialSize := 3, maxSize := 1 } : Cfg).effMax = 3 := by decide
 
 /-- **P1 (conservation).** In every reachable state, for every task id: the number of accepted submissions equals
 queued + in a worker's hand + finished, and the number of started bodies equals running + finished.  Hence no
 accepted submission is ever lost or duplicated, and no body starts more often than its task was accepted. -/
-theorem P1_conservation (cfg : Cfg) (sched : List Choice) (id : Nat) :
+theorem P1_conservation (cfg : Cfg) (hc : CfgOk cfg) (sched : List Choice) (id : Nat) :
     let s := run cfg sched
     s.sh.tasks.count id + handCnt s.thr id + s.sh.doneCnt id = s.sh.accCnt id ∧
     s.sh.startCnt id = runCnt s.thr id + s.sh.doneCnt id ∧
     s.sh.startCnt id ≤ s.sh.accCnt id := by
-  have h := conserved_run cfg sched
+  have h := conserved_run cfg hc.norestart sched
   refine ⟨h.1 id, h.2 id, ?_⟩
   have h1 := h.1 id
   have h2 := h.2 id
@@ -69,31 +108,30 @@ theorem P1_conservation (cfg : Cfg) (sched : List Choice) (id : Nat) :
     | worker w => cases w <;> simp [running] at hr <;> simp [cur, hr]
   omega
 
-/-- **P2 (join ⇒ finished; exactly once).** Whenever `stop()` has returned ok, or `shutdown()` or the destructor has
-returned: the queue is empty, no thread has a task in hand, every worker has left its loop, and every accepted
-submission has been started exactly once and has finished exactly once. -/
+/-- **B (an id is decided once).** In every reachable state (any mode, with or without restart): submission `id` has
+outcome "accepted" iff it has been pushed exactly once; no id is pushed twice. -/
+theorem accepted_iff_pushed_once (cfg : Cfg) (sched : List Choice) (id : Nat) :
+    ((run cfg sched).sh.result id = .accepted ↔ (run cfg sched).sh.accCnt id = 1) ∧ (run cfg sched).sh.accCnt id ≤ 1 :=
+  ⟨accepted_iff_accCnt cfg sched id, accCnt_le_one cfg sched id⟩
+
+/-- **P2 (join ⇒ finished; exactly once).** Whenever `stop()` has returned ok, or `shutdown()` — called by ANY controller
+thread, also one that found `_shutdown` already set — or the destructor has returned: the queue is empty, no thread has a
+task in hand, every worker has left its loop, every accepted submission has been started exactly once and has finished
+exactly once, and no other submission has started. -/
 theorem P2_returns_only_when_finished (cfg : Cfg) (hc : CfgOk cfg) (sched : List Choice) (hr : Returned (run cfg sched)) :
     let s := run cfg sched
     s.sh.tasks = [] ∧
     (∀ (t : Nat) (th : Thread), s.thr[t]? = some th → cur th = none ∧ (isWorker th = true → goneW th = true)) ∧
-    (∀ id, s.sh.startCnt id = s.sh.accCnt id ∧ s.sh.doneCnt id = s.sh.accCnt id) := by
-  have hall := allInv_run cfg hc.joined hc.max sched
-  obtain ⟨pc, r, _, hm⟩ := hall.main
+    (∀ id, s.sh.result id = .accepted → s.sh.startCnt id = 1 ∧ s.sh.doneCnt id = 1) ∧
+    (∀ id, s.sh.result id ≠ .accepted → s.sh.startCnt id = 0 ∧ s.sh.doneCnt id = 0) := by
+  have hall := allInv_run cfg hc.joined hc.norestart sched
   obtain ⟨c, hcm, hcr⟩ := hr
-  have hq := hm.log c hcm hcr
+  have hq := hall.c.gok.log c hcm hcr
   have Q := hall.q hq
-  have hcons := conserved_run cfg sched
-  refine ⟨Q.tasks, ?_, ?_⟩
-  · intro t th hget
-    have h2 := (Q.thr t th hget).2.1
-    refine ⟨?_, h2⟩
-    cases th with
-    | main pc r => rfl
-    | sub x => rfl
-    | worker w =>
-      have := h2 rfl
-      cases w <;> simp [goneW] at this <;> rfl
-  · intro id
+  have hcons := conserved_run cfg hc.norestart sched
+  have counts : ∀ id, (run cfg sched).sh.startCnt id = (run cfg sched).sh.accCnt id ∧
+      (run cfg sched).sh.doneCnt id = (run cfg sched).sh.accCnt id := by
+    intro id
     have hz := quiet_no_hand _ Q id
     have h1 := hcons.1 id
     have h2 := hcons.2 id
@@ -101,15 +139,34 @@ theorem P2_returns_only_when_finished (cfg : Cfg) (hc : CfgOk cfg) (sched : List
     rw [hz.2] at h2
     simp at h1 h2
     omega
+  refine ⟨Q.tasks, ?_, ?_, ?_⟩
+  · intro t th hget
+    have h2 := (Q.thr t th hget).2
+    refine ⟨?_, h2⟩
+    cases th with
+    | main pc r => rfl
+    | sub x => rfl
+    | worker w =>
+      have := h2 rfl
+      cases w <;> simp [goneW] at this <;> rfl
+  · intro id hacc
+    have := (idInv_run cfg sched).acc id
+    have h1 := this.1 hacc
+    have := counts id
+    omega
+  · intro id hacc
+    have := (idInv_run cfg sched).acc id
+    have h1 := this.2 hacc
+    have := counts id
+    omega
 
-/-- **P3 (nothing starts afterwards).** After `stop()` (ok), `shutdown()` or the destructor has returned, no task
-body starts any more, whatever the threads do. -/
+/-- **P3 (nothing starts afterwards).** After `stop()` (ok), `shutdown()` (of any controller thread) or the destructor
+has returned, no task body starts any more, whatever the threads do. -/
 theorem P3_no_start_after_return (cfg : Cfg) (hc : CfgOk cfg) (sched more : List Choice) (hr : Returned (run cfg sched)) :
     (run cfg (sched ++ more)).sh.startCnt = (run cfg sched).sh.startCnt := by
   have hq0 : (run cfg sched).sh.quiesced = true := by
-    obtain ⟨pc, r, _, hm⟩ := (allInv_run cfg hc.joined hc.max sched).main
     obtain ⟨c, hcm, hcr⟩ := hr
-    exact hm.log c hcm hcr
+    exact (allInv_run cfg hc.joined hc.norestart sched).c.gok.log c hcm hcr
   clear hr
   suffices h : ∀ (more sched : List Choice), (run cfg sched).sh.quiesced = true →
       (run cfg (sched ++ more)).sh.quiesced = true ∧ (run cfg (sched ++ more)).sh.startCnt = (run cfg sched).sh.startCnt from
@@ -119,7 +176,8 @@ theorem P3_no_start_after_return (cfg : Cfg) (hc : CfgOk cfg) (sched more : List
   | nil => intro sched hq; simp [hq]
   | cons c cs ih =>
     intro sched hq
-    have hstep := quiet_step cfg (run cfg sched) c hq (allInv_run cfg hc.joined hc.max sched).q
+    have hstep := quiet_step cfg (run cfg sched) c hq (allInv_run cfg hc.joined hc.norestart sched).q
+      (allInv_run cfg hc.joined hc.norestart sched).c.nors
     have e : run cfg (sched ++ [c]) = step cfg (run cfg sched) c := by simp [run, List.foldl_append]
     have h2 := ih (sched ++ [c]) (by rw [e]; exact hstep.1)
     have e2 : sched ++ c :: cs = (sched ++ [c]) ++ cs := by simp
@@ -145,6 +203,7 @@ theorem P5_exit_decision_with_empty_queue (cfg : Cfg) (sh : Shared) (n t : Nat) 
   | quiesce r hth => cases hth
   | joined w0 r hth => rcases hth with e | e <;> cases e
   | setShut r hth => cases hth
+  | restart hth => simp [restartTh] at hth
 
 /-- non-vacuity: a worker at the top of its loop, pool shut down, queue empty: the step takes it into the exit path -/
 example : tailW (.worker .lock) = false ∧
@@ -168,16 +227,40 @@ theorem P5_no_stranded_task (cfg : Cfg) (hc : CfgOk cfg) (sched : List Choice) (
     let s := run cfg sched
     (∃ (w : Nat) (th : Thread), s.thr[w]? = some th ∧ Guardian s.sh.threads s.thr w th) ∨
     (∃ (t : Nat) (th : Thread), s.thr[t]? = some th ∧ atCreate th = true) :=
-  (allInv_run cfg hc.joined hc.max sched).w.guard hne
+  (allInv_run cfg hc.joined hc.norestart sched).w.guard hne
 
-/-- **P6 (worker bound).** With `initialSize ≤ maxSize`: in every reachable state at most `maxSize` workers are registered
-in `_threads` (`getTotalThreadCount()`); by `worker_registered` below these are all the workers that can still take a task. -/
-theorem P6_workers_le_max (cfg : Cfg) (hc : CfgOk cfg) (hinit : cfg.initialSize ≤ cfg.maxSize) (sched : List Choice) :
-    (run cfg sched).sh.threads.length ≤ cfg.maxSize := by
-  have hall := allInv_run cfg hc.joined hc.max sched
-  obtain ⟨pc, r, h0, _⟩ := hall.main
-  have := (sizeInv_run cfg hc.joined hc.max hinit sched).size _ h0
+/-- **P6 (worker bound).** In every reachable state at most `_maxSize` workers are registered in `_threads`
+(`getTotalThreadCount()`), where `_maxSize` is the constructor argument clamped to at least `max(initialSize, 1)`
+(`Cfg.effMax`); no hypothesis on `initialSize` / `maxSize`. -/
+theorem P6_workers_le_max (cfg : Cfg) (hc : CfgOk cfg) (sched : List Choice) :
+    (run cfg sched).sh.threads.length ≤ cfg.effMax := by
+  have hall := allInv_run cfg hc.joined hc.norestart sched
+  obtain ⟨pc, r, h0⟩ := hall.c.main0
+  have := (sizeInv_run cfg hc.joined hc.norestart sched).size _ h0
   omega
+
+/-- **F (live worker threads ≤ max).** Until shutdown, the number of THREADS that are workers and have neither removed
+themselves from `_threads` (idle exit: such a worker still holds `_mutex` and only unlocks and returns) nor returned is at
+most `_maxSize`. -/
+theorem P6_live_worker_threads_le_max (cfg : Cfg) (hc : CfgOk cfg) (sched : List Choice)
+    (hs : (run cfg sched).sh.shutdown = false) : (run cfg sched).thr.countP liveWorker ≤ cfg.effMax :=
+  live_workers_le_max cfg hc.joined hc.norestart sched hs
+
+/-- the clamp: `_maxSize ≥ 1` and `_maxSize ≥ initialSize`, so a pool always can have a worker for an accepted task -/
+theorem effMax_ge (cfg : Cfg) : 1 ≤ cfg.effMax ∧ cfg.initialSize ≤ cfg.effMax ∧ cfg.maxSize ≤ cfg.effMax :=
+  ⟨effMax_pos cfg, effMax_init cfg, by unfold Cfg.effMax; simp only []; (repeat' split) <;> omega⟩
+
+/-- **A (one owner).** At most one controller thread is between setting `_shutdown` and returning from `shutdown()` / the
+destructor — only it runs a join loop; every other caller of `shutdown()` is on the "already shut down" path. -/
+theorem one_shutdown_owner (cfg : Cfg) (hc : CfgOk cfg) (sched : List Choice) (t t' : Nat) (pc pc' : MPc) (r r' : MRegs)
+    (h : (run cfg sched).thr[t]? = some (.main pc r)) (h' : (run cfg sched).thr[t']? = some (.main pc' r'))
+    (ho : ownsPc pc = true) (ho' : ownsPc pc' = true) : t = t' :=
+  (allInv_run cfg hc.joined hc.norestart sched).c.oneOwner t t' pc pc' r r' h h' ho ho'
+
+/-- `_shutdownComplete` is set only after a join loop has completed -/
+theorem complete_implies_quiesced (cfg : Cfg) (hc : CfgOk cfg) (sched : List Choice)
+    (h : (run cfg sched).sh.complete = true) : (run cfg sched).sh.quiesced = true :=
+  (allInv_run cfg hc.joined hc.norestart sched).c.gok.cq h
 
 /-- **P4 (refusal reasons).** The outcome of a submission is decided only by a step of its own enqueue call, and:
 "draining" only if `_accepting` is false at the unlocked check; "shutting down" only if `_shutdown` is set, "queue full"
@@ -217,7 +300,7 @@ particular a worker with a task in hand is always visible to the join loop. -/
 theorem worker_registered (cfg : Cfg) (hc : CfgOk cfg) (sched : List Choice) (w : Nat) (th : Thread)
     (h : (run cfg sched).thr[w]? = some th) (hw : isWorker th = true) (hnd : th ≠ .worker .done) :
     Accounted (run cfg sched).sh.threads (run cfg sched).thr w th :=
-  (allInv_run cfg hc.joined hc.max sched).w.reg w th h hw hnd
+  (allInv_run cfg hc.joined hc.norestart sched).w.reg w th h hw hnd
 
 -- ------------------------------------------------------------------------------------------------------------------
 -- Conformance of the source text (Gen/TpSkel.lean, regenerated from the working tree on every run) with the programs the
@@ -284,17 +367,50 @@ theorem skel_worker : unit "worker" = workerExpected ∧ Gen.TpSkel.workerWaitPr
 /-- the only hook in the worker is `tp:popped` (or none) -/
 theorem skel_worker_hooks : hooksOf "worker" = [] ∨ hooksOf "worker" = ["tp:popped"] := by decide
 
-/-- **Conformance 5.** `shutdown()` and phase 1 of the destructor set `_shutdown` under `_mutex` and `notify_all` after the
-unlock; both join loops pick and erase under `_mutex` and join outside. -/
+/-- **Conformance 5.** `shutdown()`: `_shutdown` is read under `_mutex`; on the "already shut down" path the caller
+unlocks, then polls `_shutdownComplete` (sleeping 1 ms) and only then returns (`sFlagUA` / `sDoneZ` of the model); the owner
+sets `_shutdown` under `_mutex`, `notify_all` after the unlock, and stores `_shutdownComplete` after the join loop, as its
+last operation.  Phase 1 of the destructor sets `_shutdown` the same way; both join loops pick and erase under `_mutex` and
+join outside; phase 4 detaches exactly under the condition `mode == DETACHED` — every other mode joins. -/
 theorem skel_shutdown :
-    (unit "shutdown").take 6 = [("lock", "_mutex", ""), ("read", "_shutdown", "_mutex"), ("return", "", "_mutex"),
+    (unit "shutdown").take 9 = [("lock", "_mutex", ""), ("read", "_shutdown", "_mutex"),
+      ("unlock", "_mutex", "_mutex"), ("read", "_shutdownComplete", ""), ("sleep:1ms", "", ""), ("return", "", ""),
       ("write:true", "_shutdown", "_mutex"), ("unlock", "_mutex", "_mutex"), ("notify_all", "_condition", "")] ∧
-    (unit "phase1").take 6 = (unit "shutdown").take 6 ∧
-    (unit "shutdown").drop 15 = [("lock", "_mutex", ""), ("read", "_threads", "_mutex"), ("read", "_threads", "_mutex"),
-      ("erase", "_threads", "_mutex"), ("unlock", "_mutex", "_mutex"), ("join", "thread", "")] ∧
+    (unit "phase1").take 6 = [("lock", "_mutex", ""), ("read", "_shutdown", "_mutex"), ("return", "", "_mutex"),
+      ("write:true", "_shutdown", "_mutex"), ("unlock", "_mutex", "_mutex"), ("notify_all", "_condition", "")] ∧
+    (unit "shutdown").drop 18 = [("lock", "_mutex", ""), ("read", "_threads", "_mutex"), ("read", "_threads", "_mutex"),
+      ("erase", "_threads", "_mutex"), ("unlock", "_mutex", "_mutex"), ("join", "thread", ""),
+      ("write:true", "_shutdownComplete", "")] ∧
     (unit "phase4").drop 2 = [("lock", "_mutex", ""), ("read", "_threads", "_mutex"), ("read", "_threads", "_mutex"),
-      ("erase", "_threads", "_mutex"), ("unlock", "_mutex", "_mutex"), ("detach", "thread", ""), ("join", "thread", ""),
-      ("return", "", "")] ∧
+      ("erase", "_threads", "_mutex"), ("unlock", "_mutex", "_mutex"), ("cond:mode==ShutdownMode::DETACHED", "", ""),
+      ("detach", "thread", ""), ("join", "thread", ""), ("return", "", "")] ∧
     Gen.TpSkel.dtorPhases = [1, 2, 3, 4, 5] ∧ Gen.TpSkel.workerScaling = true := by decide
+
+/-- **Conformance 6.** restart (`rsL … kU` of the model): `reset()` empties `_tasks` and clears `_threads` under `_mutex` and
+zeroes the counters; `start()` clears `_shutdown` AND `_shutdownComplete` under `_mutex`, then opens `_accepting`, then
+runs `workerCount = _workerScaling ? _initialSize : _maxSize` iterations (loop condition `i < workerCount`), each of which
+locks `_mutex` and creates + registers a worker only if `_threads.size() < workerCount` in that critical section (`kL` of
+the model; fixes/FC09c: submitters may already be growing the pool). -/
+theorem skel_restart :
+    unit "reset" = [("return", "", ""), ("lock", "_mutex", ""), ("empty?", "_tasks", "_mutex"), ("pop", "_tasks", "_mutex"),
+      ("clear", "_threads", "_mutex"), ("unlock", "_mutex", "_mutex"), ("write", "_activeThreads", ""), ("write", "_busyThreads", ""),
+      ("write", "_threadsCreated", ""), ("write", "_threadsStarted", ""), ("write", "_threadsExited", ""),
+      ("write", "_waitingThreads", ""), ("return", "", "")] ∧
+    unit "start" = [("return", "", ""), ("return", "", ""), ("return", "", ""), ("lock", "_mutex", ""),
+      ("write:false", "_shutdown", "_mutex"), ("write:false", "_shutdownComplete", "_mutex"), ("unlock", "_mutex", "_mutex"),
+      ("write:true", "_accepting", ""), ("workerCount:_workerScaling?_initialSize:_maxSize", "", ""),
+      ("loop:i<workerCount", "", ""), ("lock", "_mutex", ""), ("room?:_threads.size()<workerCount", "_threads", "_mutex"),
+      ("call", "spawnWorkerLocked", "_mutex"), ("unlock", "_mutex", "_mutex"), ("return", "", "")] := by decide
+
+/-- **Conformance 7.** the constructor (`start … cU` of the model and `Cfg.effMax`): same worker count and loop condition
+as `start()`; the default shutdown mode is IMMEDIATE (a joining mode); `_maxSize` is initialised with
+`effectiveMaxSize(initialSize, maxSize)`, whose body is the clamp that `Cfg.effMax` computes. -/
+theorem skel_ctor :
+    unit "ctor" = [("write:true", "_accepting", ""), ("workerCount:_workerScaling?_initialSize:_maxSize", "", ""),
+      ("loop:i<workerCount", "", ""), ("call", "spawnWorker", "")] ∧
+    Gen.TpSkel.ctorDefaultMode = "IMMEDIATE" ∧
+    Gen.TpSkel.maxSizeInit = "effectiveMaxSize(initialSize,maxSize)" ∧
+    Gen.TpSkel.effectiveMaxSizeBody = "std::size_tatLeast=initialSize>0?initialSize:1;returnmaxSize<atLeast?atLeast:maxSize;" := by
+  decide
 
 end Iora.C09
